@@ -201,7 +201,8 @@ def load(ctx, rng, evec_load, eig):
     shapes = list(spec) + ([(3, 9), (6, 12), (1, 60)] if ctx.tier == "quick" else [(int(rng.integers(1, 7)), 3 * int(rng.integers(1, 21))) for _ in range(40)])
     tmp = Path(tempfile.mkdtemp(prefix="cijverif.c20."))
     try:
-        for nq, np_ in shapes:
+        # every shape twice: the second file replaces the first at the same path (a loader must read what is there NOW)
+        for nq, np_ in [sh for sh in shapes for _ in (0, 1)]:
             lines = spec.get((nq, np_))
             if lines is None:
                 lines = grammar(nq, np_)
